@@ -43,7 +43,7 @@ var stdlibAmbientSome = map[string]map[string]bool{
 }
 
 func isAmbient(pkg, sel string) bool {
-	if stdlibAmbientAll[pkg] || strings.HasPrefix(pkg, "net/") {
+	if stdlibAmbientAll[pkg] || strings.HasPrefix(pkg, "net/") && pkg != "net/url" && pkg != "net/netip" {
 		return true
 	}
 	return stdlibAmbientSome[pkg][sel]
@@ -103,7 +103,7 @@ func sortTriples(ts []triple) []triple {
 	return out
 }
 
-func leanStr(s string) string { return strconv.Quote(s) }
+func factsStr(s string) string { return strconv.Quote(s) }
 
 func leanTriples(name string, ts []triple) string {
 	var sb strings.Builder
@@ -112,7 +112,7 @@ func leanTriples(name string, ts []triple) string {
 		if i > 0 {
 			sb.WriteString(",")
 		}
-		fmt.Fprintf(&sb, "\n  (%s, %s, %s)", leanStr(t.file), leanStr(t.fn), leanStr(t.sel))
+		fmt.Fprintf(&sb, "\n  (%s, %s, %s)", factsStr(t.file), factsStr(t.fn), factsStr(t.sel))
 	}
 	sb.WriteString("]\n\n")
 	return sb.String()
@@ -206,8 +206,10 @@ func genFacts(repo, out string) error {
 	}
 	var ambient, third, unsafeReflect []triple
 	type fnode struct {
-		file string
-		refs map[string]bool // bare names of package-level functions / methods referred to
+		file  string
+		refs  map[string]bool // identifiers referred to (resolve to package-level functions)
+		mrefs map[string]bool // selected names x.M with x not an imported package (resolve to methods)
+		meth  bool
 	}
 	funcs := map[string]*fnode{} // display name -> node
 	bare := map[string][]string{} // bare name -> display names
@@ -221,16 +223,16 @@ func genFacts(repo, out string) error {
 		sort.Strings(ps)
 		qs := make([]string, len(ps))
 		for i, p := range ps {
-			qs[i] = leanStr(p)
+			qs[i] = factsStr(p)
 		}
-		importLines = append(importLines, fmt.Sprintf("  (%s, [%s])", leanStr(pf.name), strings.Join(qs, ", ")))
+		importLines = append(importLines, fmt.Sprintf("  (%s, [%s])", factsStr(pf.name), strings.Join(qs, ", ")))
 		for _, d := range pf.f.Decls {
 			if fd, ok := d.(*ast.FuncDecl); ok {
 				n := funcName(fd)
 				if n == "init" {
 					n = "init@" + pf.name
 				}
-				funcs[n] = &fnode{file: pf.name, refs: map[string]bool{}}
+				funcs[n] = &fnode{file: pf.name, refs: map[string]bool{}, mrefs: map[string]bool{}, meth: fd.Recv != nil}
 				bare[fd.Name.Name] = append(bare[fd.Name.Name], n)
 			}
 		}
@@ -239,13 +241,35 @@ func genFacts(repo, out string) error {
 		for _, d := range pf.f.Decls {
 			fn := "<package-level>"
 			var node *fnode
+			var self *ast.Ident
 			if fd, ok := d.(*ast.FuncDecl); ok {
 				fn = funcName(fd)
 				if fn == "init" {
 					fn = "init@" + pf.name
 				}
 				node = funcs[fn]
+				self = fd.Name
 			}
+			// identifiers that hold a reflect.Value obtained from reflect.ValueOf
+			holders := map[string]bool{}
+			ast.Inspect(d, func(n ast.Node) bool {
+				as, ok := n.(*ast.AssignStmt)
+				if !ok || len(as.Lhs) != len(as.Rhs) {
+					return true
+				}
+				for i, r := range as.Rhs {
+					if call, ok := r.(*ast.CallExpr); ok {
+						if inner, ok := call.Fun.(*ast.SelectorExpr); ok {
+							if id, ok := inner.X.(*ast.Ident); ok && id.Obj == nil && pf.imports[id.Name] == "reflect" {
+								if l, ok := as.Lhs[i].(*ast.Ident); ok {
+									holders[l.Name] = true
+								}
+							}
+						}
+					}
+				}
+				return true
+			})
 			// method chains on reflect.ValueOf(...): record `reflect.ValueOf(_).M`
 			chained := map[*ast.SelectorExpr]bool{}
 			ast.Inspect(d, func(n ast.Node) bool {
@@ -259,15 +283,20 @@ func genFacts(repo, out string) error {
 							}
 						}
 					}
-					if node != nil {
-						node.refs[x.Sel.Name] = true
-					}
 					id, ok := x.X.(*ast.Ident)
-					if !ok || id.Obj != nil {
-						return true
+					if ok && holders[id.Name] {
+						unsafeReflect = append(unsafeReflect, triple{pf.name, fn, "reflect.ValueOf(_)." + x.Sel.Name})
 					}
-					p, ok := pf.imports[id.Name]
+					var p string
+					if ok && id.Obj == nil {
+						p, ok = pf.imports[id.Name]
+					} else {
+						ok = false
+					}
 					if !ok {
+						if node != nil {
+							node.mrefs[x.Sel.Name] = true
+						}
 						return true
 					}
 					sel := id.Name + "." + x.Sel.Name
@@ -282,7 +311,7 @@ func genFacts(repo, out string) error {
 						ambient = append(ambient, triple{pf.name, fn, sel})
 					}
 				case *ast.Ident:
-					if node != nil && x.Obj == nil || node != nil && x.Obj != nil && x.Obj.Kind == ast.Fun {
+					if node != nil && x != self && (x.Obj == nil || x.Obj.Kind == ast.Fun) {
 						node.refs[x.Name] = true
 					}
 				}
@@ -303,8 +332,23 @@ func genFacts(repo, out string) error {
 			inClosure[t.fn] = true
 		}
 	}
-	for _, t := range third {
-		_ = t
+	targets := func(node *fnode) []string {
+		var ts []string
+		for ref := range node.refs {
+			for _, t := range bare[ref] {
+				if !funcs[t].meth {
+					ts = append(ts, t)
+				}
+			}
+		}
+		for ref := range node.mrefs {
+			for _, t := range bare[ref] {
+				if funcs[t].meth {
+					ts = append(ts, t)
+				}
+			}
+		}
+		return ts
 	}
 	for changed := true; changed; {
 		changed = false
@@ -312,12 +356,10 @@ func genFacts(repo, out string) error {
 			if inClosure[name] {
 				continue
 			}
-			for ref := range node.refs {
-				for _, target := range bare[ref] {
-					if inClosure[target] && funcs[target].file == node.file && target != name {
-						inClosure[name] = true
-						changed = true
-					}
+			for _, target := range targets(node) {
+				if inClosure[target] && funcs[target].file == node.file && target != name {
+					inClosure[name] = true
+					changed = true
 				}
 			}
 		}
@@ -327,11 +369,9 @@ func genFacts(repo, out string) error {
 		closure = append(closure, triple{funcs[name].file, name, ""})
 	}
 	for name, node := range funcs {
-		for ref := range node.refs {
-			for _, target := range bare[ref] {
-				if inClosure[target] && funcs[target].file != node.file {
-					entries = append(entries, triple{node.file, name, target})
-				}
+		for _, target := range targets(node) {
+			if inClosure[target] && funcs[target].file != node.file {
+				entries = append(entries, triple{node.file, name, target})
 			}
 		}
 	}
